@@ -632,65 +632,86 @@ Section Trav.
     | S f => fold_left (fun acc sub => trav f acc sub) (rs_subs (get s r)) s1
     end.
 
+  (* [I]: a side condition on systems under which [visit] behaves (e.g. all registries push) *)
+  Variable I : sys -> Prop.
+  Hypothesis visit_I : forall s r, I s -> I (visit s r).
+
+  Lemma trav_I : forall f s r, I s -> I (trav f s r).
+  Proof.
+    induction f as [|f IH]; intros s r H; cbn [trav]; auto.
+    apply (fold_left_inv I); auto.
+  Qed.
+
   Section Pres.
     Variable R : sys -> sys -> Prop.
     Hypothesis R_refl : forall s, R s s.
     Hypothesis R_trans : forall a b c, R a b -> R b c -> R a c.
-    Hypothesis visit_R : forall s r, R s (visit s r).
+    Hypothesis visit_R : forall s r, I s -> R s (visit s r).
 
-    Lemma trav_pres : forall f s r, R s (trav f s r).
+    Lemma trav_pres : forall f s r, I s -> R s (trav f s r).
     Proof.
-      induction f as [|f IH]; intros s r; cbn [trav]; auto.
-      apply (fold_left_inv (fun acc => R s acc)); auto.
-      intros a b Ha _. eapply R_trans; eauto.
+      induction f as [|f IH]; intros s r H; cbn [trav]; auto.
+      apply (fold_left_inv (fun acc => I acc /\ R s acc)); auto.
+      intros a b (Ia & Ha) _. split; [apply trav_I; auto|]. eapply R_trans; eauto.
+    Qed.
+
+    Lemma trav_fold_pres f l s : I s -> R s (fold_left (fun acc sub => trav f acc sub) l s).
+    Proof.
+      intros H. apply (fold_left_inv (fun acc => I acc /\ R s acc)); auto.
+      intros a b (Ia & Ha) _. split; [apply trav_I; auto|]. eapply R_trans; eauto. apply trav_pres; auto.
     Qed.
   End Pres.
 
   Variable P : sys -> nat -> Prop.
-  Hypothesis visit_graph : forall s r, graph_eq s (visit s r).
-  Hypothesis visit_P : forall s r, r < length s -> P (visit s r) r.
-  Hypothesis visit_keeps : forall s r x, P s x -> P (visit s r) x.
+  Hypothesis visit_graph : forall s r, I s -> graph_eq s (visit s r).
+  Hypothesis visit_P : forall s r, I s -> r < length s -> P (visit s r) r.
+  Hypothesis visit_keeps : forall s r x, I s -> P s x -> P (visit s r) x.
 
-  Lemma trav_graph f s r : graph_eq s (trav f s r).
+  Lemma trav_graph f s r : I s -> graph_eq s (trav f s r).
   Proof. apply trav_pres; auto using graph_eq_refl. intros; eapply graph_eq_trans; eauto. Qed.
 
-  Lemma trav_keeps : forall f s r x, P s x -> P (trav f s r) x.
+  Lemma trav_keeps : forall f s r x, I s -> P s x -> P (trav f s r) x.
   Proof.
-    induction f as [|f IH]; intros s r x H; cbn [trav]; auto.
-    apply (fold_left_inv (fun acc => P acc x)); auto.
+    induction f as [|f IH]; intros s r x Is H; cbn [trav]; auto.
+    apply (fold_left_inv (fun acc => I acc /\ P acc x)); auto.
+    intros a b (Ia & Ha) _. split; auto using trav_I.
   Qed.
 
-  Lemma trav_fold_keeps f l s x : P s x -> P (fold_left (fun acc sub => trav f acc sub) l s) x.
-  Proof. intros. apply (fold_left_inv (fun acc => P acc x)); auto. intros; apply trav_keeps; auto. Qed.
-
-  Lemma trav_fold_graph f l s : graph_eq s (fold_left (fun acc sub => trav f acc sub) l s).
+  Lemma trav_fold_keeps f l s x : I s -> P s x -> P (fold_left (fun acc sub => trav f acc sub) l s) x.
   Proof.
-    apply (fold_left_inv (fun acc => graph_eq s acc)); auto using graph_eq_refl.
-    intros a b Ha _. eapply graph_eq_trans; eauto using trav_graph.
+    intros Is H. apply (fold_left_inv (fun acc => I acc /\ P acc x)); auto.
+    intros a b (Ia & Ha) _. split; auto using trav_I, trav_keeps.
   Qed.
+
+  Lemma trav_fold_I f l s : I s -> I (fold_left (fun acc sub => trav f acc sub) l s).
+  Proof. intros. apply (fold_left_inv I); auto. intros; apply trav_I; auto. Qed.
+
+  Lemma trav_fold_graph f l s : I s -> graph_eq s (fold_left (fun acc sub => trav f acc sub) l s).
+  Proof. apply trav_fold_pres; auto using graph_eq_refl. intros; eapply graph_eq_trans; eauto. Qed.
 
   Definition reach_goal (f : nat) : Prop :=
-    forall s r, subs_ok s -> r < length s -> length s <= r + S f ->
+    forall s r, I s -> subs_ok s -> r < length s -> length s <= r + S f ->
                 forall x, Reach (Bs s) x r -> P (trav f s r) x.
 
   Lemma trav_fold_reach f : reach_goal f ->
-    forall l s0 acc y x, subs_ok s0 -> graph_eq s0 acc -> In y l -> y < length s0 -> length s0 <= y + S f ->
+    forall l s0 acc y x, I acc -> subs_ok s0 -> graph_eq s0 acc -> In y l -> y < length s0 ->
+                         length s0 <= y + S f ->
                          Reach (Bs s0) x y -> P (fold_left (fun acc sub => trav f acc sub) l acc) x.
   Proof.
-    intros G. induction l as [|a l IH]; intros s0 acc y x S0 E Hy L1 L2 Rx; [destruct Hy|].
+    intros G. induction l as [|a l IH]; intros s0 acc y x Ia S0 E Hy L1 L2 Rx; [destruct Hy|].
     cbn [fold_left]. destruct (Nat.eq_dec a y) as [->|N].
-    - apply trav_fold_keeps. destruct E as (LE & HE). apply G.
+    - apply trav_fold_keeps; [apply trav_I; auto|]. destruct E as (LE & HE). apply G; auto.
       + eapply graph_eq_subs_ok; eauto. split; auto.
       + rewrite <- LE; auto.
       + rewrite <- LE; auto.
       + apply (Reach_ext (Bs s0) (Bs acc)); auto. intros i. apply HE.
-    - destruct Hy as [?|Hy]; [congruence|]. eapply IH; eauto.
+    - destruct Hy as [?|Hy]; [congruence|]. eapply IH; eauto using trav_I.
       eapply graph_eq_trans; eauto using trav_graph.
   Qed.
 
   Lemma trav_reach : forall f, reach_goal f.
   Proof.
-    induction f as [|f IH]; intros s r S0 L1 L2 x Rx; cbn [trav].
+    induction f as [|f IH]; intros s r Is S0 L1 L2 x Rx; cbn [trav].
     - destruct (Nat.eq_dec x r) as [->|N]; auto.
       destruct (Reach_last _ _ _ Rx N) as (y & _ & Hy). apply S0 in Hy. apply S0 in Hy. lia.
     - destruct (Nat.eq_dec x r) as [->|N]; [apply trav_fold_keeps; auto|].
@@ -699,3 +720,323 @@ Section Trav.
       eapply (trav_fold_reach f IH _ s); eauto; lia.
   Qed.
 End Trav.
+
+(* ---- _refresh_ro as a traversal *)
+Definition visit_ro (s : sys) (r : nat) : sys :=
+  upd s r (fun x => mkRS (rs_reg x) (rs_caches x) (rs_bases x) (fresh_ro s r) (rs_subs x)
+                         (rs_vro x) (rs_vgen x) (rs_flavour x)).
+
+Definition P_ro (s : sys) (x : nat) : Prop := rs_ro (get s x) = fresh_ro s x.
+
+Lemma visit_ro_graph s r : graph_eq s (visit_ro s r).
+Proof. apply upd_graph_eq. intros x. cbn. auto. Qed.
+
+Lemma visit_ro_P s r : r < length s -> P_ro (visit_ro s r) r.
+Proof.
+  intros H. unfold P_ro. rewrite <- (graph_eq_fresh _ _ r (visit_ro_graph s r)).
+  unfold visit_ro. rewrite get_upd_same; auto.
+Qed.
+
+Lemma visit_ro_keeps s r x : P_ro s x -> P_ro (visit_ro s r) x.
+Proof.
+  unfold P_ro. intros H. rewrite <- (graph_eq_fresh _ _ x (visit_ro_graph s r)).
+  unfold visit_ro. rewrite get_upd.
+  destruct (Nat.eqb x r && Nat.ltb r (length s)) eqn:E; auto.
+  apply andb_true_iff in E. destruct E as (E & _). apply Nat.eqb_eq in E. subst. reflexivity.
+Qed.
+
+Lemma refresh_ro_trav : forall f s r, allPush s -> refresh_ro f s r = trav visit_ro f s r.
+Proof.
+  induction f as [|f IH]; intros s r A; cbn [refresh_ro trav]; [reflexivity|].
+  assert (E : forall X Y : sys, match rs_flavour (get s r) with Push => X | Verifying => Y end = X)
+    by (intros; rewrite (A r); auto).
+  rewrite E. change (trav visit_ro f) with (trav visit_ro f).
+  apply (fold_left_ext_inv allPush).
+  - eapply graph_eq_allPush; eauto. apply visit_ro_graph.
+  - intros a b Ha _. eapply graph_eq_allPush; eauto.
+    apply (trav_graph visit_ro (fun _ => True)); auto. intros; apply visit_ro_graph.
+  - intros a b Ha _. apply IH; auto.
+Qed.
+
+(* ---- changed() fan-out as a traversal *)
+Definition visit_ch (s : sys) (r : nat) : sys := lookup_changed false (upd s r bump) r.
+
+Definition P_c (s : sys) (x : nat) : Prop := rs_caches (get s x) = empty_caches.
+
+Lemma lookup_changed_push b s r : rs_flavour (get s r) = Push ->
+  lookup_changed b s r =
+  upd s r (fun x => mkRS (rs_reg x) empty_caches (rs_bases x) (rs_ro x) (rs_subs x) (rs_vro x) (rs_vgen x) Push).
+Proof. intros H. unfold lookup_changed. rewrite H. reflexivity. Qed.
+
+Lemma lookup_changed_push_skel b s r : allPush s -> skel_eq s (lookup_changed b s r).
+Proof.
+  intros A. rewrite lookup_changed_push by apply A.
+  split; [split; [symmetry; apply upd_length|]|]; intros i; rewrite get_upd;
+    destruct (Nat.eqb i r && Nat.ltb r (length s)) eqn:E; auto;
+    apply andb_true_iff in E; destruct E as (E & _); apply Nat.eqb_eq in E; subst; cbn; auto.
+Qed.
+
+Lemma bump_skel s r : skel_eq s (upd s r bump).
+Proof. apply upd_skel_eq. intros x. cbn. auto. Qed.
+
+Lemma skel_allPush s s' : skel_eq s s' -> allPush s -> allPush s'.
+Proof. intros (G & _). eapply graph_eq_allPush; eauto. Qed.
+
+Lemma visit_ch_skel s r : allPush s -> skel_eq s (visit_ch s r).
+Proof.
+  intros A. unfold visit_ch. eapply skel_eq_trans; [apply bump_skel|].
+  apply lookup_changed_push_skel. eapply skel_allPush; eauto. apply bump_skel.
+Qed.
+
+Lemma visit_ch_P s r : allPush s -> r < length s -> P_c (visit_ch s r) r.
+Proof.
+  intros A H. unfold visit_ch, P_c. rewrite lookup_changed_push.
+  - rewrite get_upd_same; [reflexivity|]. rewrite upd_length; auto.
+  - eapply skel_allPush; eauto. apply bump_skel.
+Qed.
+
+Lemma visit_ch_keeps s r x : allPush s -> P_c s x -> P_c (visit_ch s r) x.
+Proof.
+  intros A H. unfold visit_ch, P_c. rewrite lookup_changed_push.
+  - rewrite get_upd, upd_length. destruct (Nat.eqb x r && Nat.ltb r (length s)) eqn:E; [reflexivity|].
+    rewrite get_upd, E. auto.
+  - eapply skel_allPush; eauto. apply bump_skel.
+Qed.
+
+Lemma visit_ch_graph s r : allPush s -> graph_eq s (visit_ch s r).
+Proof. intros A. apply visit_ch_skel; auto. Qed.
+
+Lemma visit_ch_allPush s r : allPush s -> allPush (visit_ch s r).
+Proof. intros A. eapply skel_allPush; eauto using visit_ch_skel. Qed.
+
+Lemma sub_changed_trav : forall f s r, allPush s -> sub_changed f s r = trav visit_ch f s r.
+Proof.
+  induction f as [|f IH]; intros s r A; cbn [sub_changed trav]; [reflexivity|].
+  fold (visit_ch s r).
+  pose proof (visit_ch_allPush s r A) as A1.
+  assert (E : forall X Y : sys, match rs_flavour (get (visit_ch s r) r) with Push => X | Verifying => Y end = X)
+    by (intros; rewrite (A1 r); auto).
+  rewrite E.
+  replace (rs_subs (get (visit_ch s r) r)) with (rs_subs (get s r))
+    by (destruct (visit_ch_graph s r A) as (_ & H); apply H).
+  apply (fold_left_ext_inv allPush); auto.
+  intros a b Ha _. apply (trav_I visit_ch allPush); auto. intros; apply visit_ch_allPush; auto.
+Qed.
+
+Lemma after_bump_push s r : allPush s ->
+  after_bump s r = fold_left (fun acc sub => trav visit_ch (length s) acc sub) (rs_subs (get s r))
+                             (lookup_changed false s r).
+Proof.
+  intros A. unfold after_bump.
+  pose proof (lookup_changed_push_skel false s r A) as K.
+  pose proof (skel_allPush _ _ K A) as A1. rewrite (A1 r).
+  replace (rs_subs (get (lookup_changed false s r) r)) with (rs_subs (get s r))
+    by (destruct K as ((_ & H) & _); apply H).
+  apply (fold_left_ext_inv allPush); auto.
+  - intros a b Ha _. apply (trav_I visit_ch allPush); auto. intros; apply visit_ch_allPush; auto.
+  - intros a b Ha _. apply sub_changed_trav; auto.
+Qed.
+
+Lemma after_bump_skel s r : allPush s -> skel_eq s (after_bump s r).
+Proof.
+  intros A. rewrite after_bump_push; auto.
+  pose proof (lookup_changed_push_skel false s r A) as K.
+  eapply skel_eq_trans; eauto.
+  apply (trav_fold_pres visit_ch allPush); auto using skel_eq_refl.
+  - intros; apply visit_ch_allPush; auto.
+  - intros; eapply skel_eq_trans; eauto.
+  - intros; apply visit_ch_skel; auto.
+  - eapply skel_allPush; eauto.
+Qed.
+
+(* changed() reaches the caches of the registry and of all its transitive sub-registries *)
+Lemma after_bump_empties s r : allPush s -> subs_ok s -> r < length s ->
+  forall x, Reach (Bs s) x r -> rs_caches (get (after_bump s r) x) = empty_caches.
+Proof.
+  intros A S0 L x Rx. rewrite after_bump_push; auto.
+  pose proof (lookup_changed_push_skel false s r A) as K.
+  pose proof (skel_allPush _ _ K A) as A1.
+  destruct (Nat.eq_dec x r) as [->|N].
+  - apply (trav_fold_keeps visit_ch allPush visit_ch_allPush P_c); auto.
+    + intros; apply visit_ch_keeps; auto.
+    + unfold P_c. rewrite lookup_changed_push by apply A. rewrite get_upd_same; auto.
+  - destruct (Reach_last _ _ _ Rx N) as (y & Ry & Hy). apply S0 in Hy.
+    pose proof (proj1 S0 _ _ Hy).
+    apply (trav_fold_reach visit_ch allPush visit_ch_allPush P_c visit_ch_graph) with (s0 := s) (y := y);
+      auto; try lia.
+    + intros; apply visit_ch_keeps; auto.
+    + apply trav_reach; auto using visit_ch_allPush, visit_ch_graph, visit_ch_P.
+      intros; apply visit_ch_keeps; auto.
+    + apply K.
+Qed.
+
+Lemma refresh_ro_graph f s r : allPush s -> graph_eq s (refresh_ro f s r).
+Proof.
+  intros A. rewrite refresh_ro_trav; auto.
+  apply (trav_graph visit_ro (fun _ => True)); auto. intros; apply visit_ro_graph.
+Qed.
+
+Lemma refresh_ro_keeps f s r x : allPush s -> P_ro s x -> P_ro (refresh_ro f s r) x.
+Proof.
+  intros A H. rewrite refresh_ro_trav; auto.
+  apply (trav_keeps visit_ro (fun _ => True)); auto. intros; apply visit_ro_keeps; auto.
+Qed.
+
+Lemma refresh_ro_reaches s r x : allPush s -> subs_ok s -> r < length s ->
+  Reach (Bs s) x r -> P_ro (refresh_ro (length s) s r) x.
+Proof.
+  intros A S0 L Rx. rewrite refresh_ro_trav; auto.
+  apply (trav_reach visit_ro (fun _ => True)); auto; try lia.
+  - intros; apply visit_ro_graph.
+  - intros; apply visit_ro_P; auto.
+  - intros; apply visit_ro_keeps; auto.
+Qed.
+
+(* ---- _setBases: the sub-registry bookkeeping *)
+Definition with_subs (y : rstate) (l : list nat) : rstate :=
+  mkRS (rs_reg y) (rs_caches y) (rs_bases y) (rs_ro y) l (rs_vro y) (rs_vgen y) (rs_flavour y).
+
+Definition rm_sub (r : nat) (y : rstate) : rstate := with_subs y (remove_nat r (rs_subs y)).
+Definition add_sub (r : nat) (y : rstate) : rstate :=
+  with_subs y (if mem r (rs_subs y) then rs_subs y else rs_subs y ++ [r]).
+
+Definition book (old : list nat) (s : sys) (r : nat) (bs : list nat) : sys :=
+  fold_left (fun acc b => if mem b old then acc else upd acc b (add_sub r)) bs
+            (fold_left (fun acc b => if mem b bs then acc else upd acc b (rm_sub r)) old s).
+
+Definition setb (bs : list nat) (y : rstate) : rstate :=
+  mkRS (rs_reg y) (rs_caches y) bs (rs_ro y) (rs_subs y) (rs_vro y) (rs_vgen y) (rs_flavour y).
+
+Lemma set_bases_push_eq s r bs : rs_flavour (get s r) = Push ->
+  set_bases s r bs =
+  let s2 := upd (book (rs_bases (get s r)) s r bs) r (setb bs) in
+  after_bump (upd (refresh_ro (length s) s2 r) r bump) r.
+Proof. intros H. unfold set_bases. rewrite H. reflexivity. Qed.
+
+Lemma In_remove_nat r y l : In y (remove_nat r l) <-> In y l /\ y <> r.
+Proof.
+  unfold remove_nat. rewrite filter_In, negb_true_iff, Nat.eqb_neq. split; intros (? & ?); split; auto.
+Qed.
+
+(* what one bookkeeping step does to the sub-registry list of registry i *)
+Lemma get_upd_subs s b f i :
+  (forall y, exists l, f y = with_subs y l) ->
+  exists l, get (upd s b f) i = with_subs (get s i) l.
+Proof.
+  intros Hf. rewrite get_upd. destruct (Nat.eqb i b && Nat.ltb b (length s)) eqn:E.
+  - apply andb_true_iff in E. destruct E as (E & _). apply Nat.eqb_eq in E. subst. apply Hf.
+  - exists (rs_subs (get s i)). destruct (get s i); reflexivity.
+Qed.
+
+Definition only_subs (s acc : sys) : Prop :=
+  length acc = length s /\ forall i, exists l, get acc i = with_subs (get s i) l.
+
+Lemma only_subs_refl s : only_subs s s.
+Proof. split; auto. intros i. exists (rs_subs (get s i)). destruct (get s i); reflexivity. Qed.
+
+Lemma only_subs_upd s acc b f : (forall y, exists l, f y = with_subs y l) ->
+  only_subs s acc -> only_subs s (upd acc b f).
+Proof.
+  intros Hf (L & H). split; [rewrite upd_length; auto|]. intros i.
+  destruct (get_upd_subs acc b f i Hf) as (l & ->). destruct (H i) as (l' & ->). exists l. reflexivity.
+Qed.
+
+Lemma rm_sub_shape r y : exists l, rm_sub r y = with_subs y l.
+Proof. eexists; reflexivity. Qed.
+Lemma add_sub_shape r y : exists l, add_sub r y = with_subs y l.
+Proof. eexists; reflexivity. Qed.
+
+Section Book.
+  Variables (old bs : list nat) (r : nat) (s : sys).
+
+  Let step1 := fun (acc : sys) b => if mem b bs then acc else upd acc b (rm_sub r).
+  Let step2 := fun (acc : sys) b => if mem b old then acc else upd acc b (add_sub r).
+  Let sa := fold_left step1 old s.
+  Let sb := fold_left step2 bs sa.
+
+  Definition J1 (acc : sys) : Prop :=
+    only_subs s acc /\
+    forall i, (forall y, In y (rs_subs (get acc i)) -> In y (rs_subs (get s i))) /\
+              (forall y, In y (rs_subs (get s i)) -> y <> r -> In y (rs_subs (get acc i))) /\
+              (In i bs -> rs_subs (get acc i) = rs_subs (get s i)).
+
+  Lemma J1_sa : J1 sa.
+  Proof.
+    unfold sa. apply fold_left_inv.
+    - split; [apply only_subs_refl|]. intros i. repeat split; auto.
+    - intros acc b (O & H) _. unfold step1. destruct (mem b bs) eqn:M; [split; auto|].
+      split; [apply only_subs_upd; auto using rm_sub_shape|].
+      intros i. destruct (H i) as (H1 & H2 & H3). rewrite get_upd.
+      destruct (Nat.eqb i b && Nat.ltb b (length acc)) eqn:E; [|repeat split; auto].
+      apply andb_true_iff in E. destruct E as (E & _). apply Nat.eqb_eq in E. subst i.
+      cbn [rm_sub with_subs rs_subs]. repeat split.
+      + intros y Hy. apply In_remove_nat in Hy. apply H1. tauto.
+      + intros y Hy N. apply In_remove_nat. auto.
+      + intros Hb. apply mem_In in Hb. congruence.
+  Qed.
+
+  Definition J2 (acc : sys) : Prop :=
+    only_subs s acc /\
+    forall i, (forall y, In y (rs_subs (get acc i)) -> In y (rs_subs (get sa i)) \/ (y = r /\ In i bs)) /\
+              (forall y, In y (rs_subs (get sa i)) -> In y (rs_subs (get acc i))).
+
+  Lemma step2_J2 acc b : In b bs -> J2 acc -> J2 (step2 acc b).
+  Proof.
+    intros Hb (O & H). unfold step2. destruct (mem b old) eqn:M; [split; auto|].
+    split; [apply only_subs_upd; auto using add_sub_shape|].
+    intros i. destruct (H i) as (H1 & H2). rewrite get_upd.
+    destruct (Nat.eqb i b && Nat.ltb b (length acc)) eqn:E; [|split; auto].
+    apply andb_true_iff in E. destruct E as (E & _). apply Nat.eqb_eq in E. subst i.
+    cbn [add_sub with_subs rs_subs]. destruct (mem r (rs_subs (get acc b))); [split; auto|]. split.
+    - intros y Hy. apply in_app_iff in Hy. destruct Hy as [Hy|[<-|[]]]; auto.
+    - intros y Hy. apply in_app_iff. auto.
+  Qed.
+
+  Lemma J2_sb : J2 sb.
+  Proof.
+    unfold sb. apply fold_left_inv.
+    - split; [apply J1_sa|]. intros i. split; auto.
+    - intros acc b Ha Hb. apply step2_J2; auto.
+  Qed.
+
+  Lemma step2_mono acc b i y : In y (rs_subs (get acc i)) -> In y (rs_subs (get (step2 acc b) i)).
+  Proof.
+    intros H. unfold step2. destruct (mem b old); auto. rewrite get_upd.
+    destruct (Nat.eqb i b && Nat.ltb b (length acc)) eqn:E; auto.
+    apply andb_true_iff in E. destruct E as (E & _). apply Nat.eqb_eq in E. subst i.
+    cbn [add_sub with_subs rs_subs]. destruct (mem r (rs_subs (get acc b))); auto. apply in_app_iff; auto.
+  Qed.
+
+  Lemma step2_length acc b : length (step2 acc b) = length acc.
+  Proof. unfold step2. destruct (mem b old); auto. apply upd_length. Qed.
+
+  Lemma fold2_has : forall l acc i, In i l -> i < length acc ->
+    (In i old -> In r (rs_subs (get acc i))) -> In r (rs_subs (get (fold_left step2 l acc) i)).
+  Proof.
+    induction l as [|b l IH]; intros acc i Hi L Ho; [destruct Hi|]. cbn [fold_left].
+    destruct (Nat.eq_dec b i) as [->|N].
+    - apply (fold_left_inv (fun a => In r (rs_subs (get a i)))); [|intros; apply step2_mono; auto].
+      unfold step2. destruct (mem i old) eqn:M; [apply Ho, mem_In; auto|].
+      rewrite get_upd_same by auto. cbn [add_sub with_subs rs_subs].
+      destruct (mem r (rs_subs (get acc i))) eqn:M2; [apply mem_In; auto|apply in_app_iff; cbn; auto].
+    - destruct Hi as [?|Hi]; [congruence|]. apply IH; auto.
+      + rewrite step2_length; auto.
+      + intros. apply step2_mono; auto.
+  Qed.
+
+  Lemma book_spec :
+    only_subs s (book old s r bs) /\
+    (forall i y, In y (rs_subs (get (book old s r bs) i)) -> In y (rs_subs (get s i)) \/ (y = r /\ In i bs)) /\
+    (forall i y, In y (rs_subs (get s i)) -> y <> r -> In y (rs_subs (get (book old s r bs) i))) /\
+    (forall i, In i bs -> i < length s -> (In i old -> In r (rs_subs (get s i))) ->
+               In r (rs_subs (get (book old s r bs) i))).
+  Proof.
+    change (book old s r bs) with sb. destruct J2_sb as (O & H2). destruct J1_sa as (O1 & H1).
+    split; auto. repeat split.
+    - intros i y Hy. apply H2 in Hy. destruct Hy as [Hy|?]; auto. left. apply H1; auto.
+    - intros i y Hy N. apply H2. apply H1; auto.
+    - intros i Hi L Ho. unfold sb. apply fold2_has; auto.
+      + destruct O1 as (-> & _); auto.
+      + intros Hio. destruct (H1 i) as (_ & _ & ->); auto.
+  Qed.
+End Book.
